@@ -1468,7 +1468,16 @@ func (t *table) gc(now bigtable.Timestamp, done <-chan struct{}, force bool) {
 	// TODO(scottb): could collect batches of rows that need GC with only a read lock, update with write lock.
 
 	i := 0
+	released := false
 	t.rows.Ascend(func(r *btpb.Row) bool {
+		if released {
+			// The table lock has been given up since the iteration began, and the iteration may run on a
+			// snapshot from before that: look at the row as it is now, so that a write acknowledged in the
+			// meantime is not overwritten with the stale row.
+			if r = t.rows.Get(r.Key); r == nil {
+				r = &btpb.Row{} // deleted in the meantime: nothing to collect
+			}
+		}
 		changed := false
 		for _, fam := range r.Families {
 			gcRule := rules[fam.Name]
@@ -1490,6 +1499,7 @@ func (t *table) gc(now bigtable.Timestamp, done <-chan struct{}, force bool) {
 		}
 
 		// Reverse lock; check if we should exit
+		released = true
 		t.mu.Unlock()
 		defer t.mu.Lock()
 		select {
